@@ -55,11 +55,10 @@ def crypto_kills(ctx, also=None):
         if not good:
             return None
         if exc == 'EncrError' and call is None and fi.cls is not None and fi.cls.qual == 'crypto.Cipher' \
-                and text.startswith('raise EncrError') and _guarded_by_key_size(node):
+                and text.startswith('raise EncrError') and _guarded_by_key_size(ctx, fi, node):
             # only the raise under the key-length test is discharged; any other EncrError (IV size, ...) is kept
             return 'key length equals cipher.key_size by construction (who-constructs Crypto)'
-        if exc == 'ValueError' and fi.qual in ('crypto.Cipher.decrypt', 'crypto.Cipher.encrypt') \
-                and text.startswith('self._algorithm('):
+        if exc == 'ValueError' and fi.cls is not None and fi.cls.qual == 'crypto.Cipher' and text.startswith('self._algorithm('):
             return 'AES key size valid by construction (who-constructs Crypto)'
         if exc == 'ValueError' and fi.qual == 'crypto.Cipher.encrypt':
             return ('encrypt side: IV is os.urandom(block_size) drawn in Message.__init__ or an IV that already '
@@ -68,11 +67,20 @@ def crypto_kills(ctx, also=None):
     return kills
 
 
-def _guarded_by_key_size(node):
-    """the CFG node is reached only through the true edge of `len(<key>) != self.key_size`"""
-    preds = [(lab, p) for lab, p in node.pred if not isinstance(lab, tuple)]
-    return bool(preds) and all(p.kind == 'cond' and lab == 'T' and src(p.ast).startswith('len(') and
-                               src(p.ast).endswith('!= self.key_size') for lab, p in preds)
+def _guarded_by_key_size(ctx, fi, node):
+    """the raise is reached exactly when `len(<key>) != self.key_size` (value-term path condition: a guard clause, an
+    inverted if/else or a conjunction give the same single atom)"""
+    from ..sval import norm_pc, strip_ids
+    sv = ctx.sval(fi)
+    st = node.ast if hasattr(node, 'ast') else node
+    pc = sv.conds.get(id(st))
+    if pc is None:
+        return False
+    key = [p for p in fi.call_params() if p == 'key']
+    if not key:
+        return False
+    want = norm_pc(((sv.expr('len(key) != self.key_size'), True),))
+    return strip_ids(norm_pc(pc)) == strip_ids(want)
 
 
 def find_calls(ctx, fi, qual=None, name=None, lib=None):
